@@ -485,6 +485,12 @@ def expand(prog, f, depth=2, local_only=False, skip_names=()):
     return root
 
 
+def _is_inliner_temp(name):
+    import re
+
+    return name.startswith("hoist__") or re.fullmatch(r".+__.+_\d+", name) is not None
+
+
 def _propagate_generator_temps(root):
     """`t = (E for ...)` bound once and read once, by the statement that follows it, is written at its use (the temporaries the
     inliner makes for generator arguments)."""
@@ -502,6 +508,7 @@ def _propagate_generator_temps(root):
             nxt = stmts[i + 1] if i + 1 < len(stmts) else None
             if isinstance(st, ast.Assign) and len(st.targets) == 1 and isinstance(st.targets[0], ast.Name) \
                     and isinstance(st.value, (ast.GeneratorExp, ast.ListComp)) and cnt.get(st.targets[0].id) == (1, 1) and nxt is not None \
+                    and _is_inliner_temp(st.targets[0].id) \
                     and sum(1 for x in ast.walk(nxt) if isinstance(x, ast.Name) and x.id == st.targets[0].id) == 1:
                 nm, val = st.targets[0].id, st.value
 
